@@ -11,7 +11,7 @@ from __future__ import annotations
 import os
 import time
 
-from .. import planlib, world
+from .. import planlib, simclock, world
 from ..catalogue import encode, mk_candles
 from ..core import Discard, LibError, Violation, run_property
 from ..subjects import ROUTES, build_route
@@ -39,7 +39,10 @@ RULE = ("every sampled trace (seeded world loop: feed faults, chunked delivery, 
         "operations) is executed under UTC and under each of the 10 zones of the panel on a real CandleManager "
         "(four routes); non-trivial = at least two collapsed buckets were compared under every zone and the stream "
         "came in at least two non-empty appends or a fault fired; distinct = distinct digests of (trace, UTC result)")
-ASSUMPTIONS = ["zone data from /usr/share/zoneinfo and glibc tzset(); the panel is fixed, zones outside it are not run"]
+ASSUMPTIONS = ["zone data from /usr/share/zoneinfo and glibc tzset(); the panel is fixed, zones outside it are not run",
+               "the wall clock is simulated (hexsim/simclock.py): the library's datetime.now()/time.time() would read "
+               "the instant set from the trace (live feed: just after each arrival), converted with the zone under test; "
+               "at the pinned commit the library never reads it (reads are counted and reported)"]
 
 
 def _set_tz(zone):
@@ -69,7 +72,7 @@ def plan(seed, subbatch):
         faults, burst, p_empty = {}, None, 0.0
         switches = 0
     else:
-        faults, burst, p_empty, _ = planlib.swarm_faults(cfg, base_s, tf_s, allowed=("drop", "dup", "jitter", "offset", "burst"),
+        faults, burst, p_empty, _ = planlib.swarm_faults(cfg, base_s, tf_s, allowed=("drop", "dup", "jitter", "offset", "burst", "halt"),
                                                          halt_buckets=(3, 10))
         switches = cfg.choice((0, 0, 1, 2, 3))
     op_rng = sub_rng(seed, "operator")
@@ -81,7 +84,10 @@ def plan(seed, subbatch):
     return {"format": 1, "property": ID, "seed": seed, "subbatch": subbatch,
             "config": {"route": route, "tf": tf, "base_s": base_s, "fill": cfg.random() < 0.5,
                        "enc": cfg.choice(("candles", "candles", "dicts_iso", "dicts")),
-                       "lifespan_s": (tf_s * cfg.randint(2, 12) if cfg.random() < 0.25 else None)},
+                       "lifespan_s": (tf_s * cfg.randint(2, 12) if cfg.random() < 0.25 else None),
+                       # the simulated wall clock: a live feed handled `lag` seconds after each arrival's newest
+                       # candle, or (None) a replay of old data long after the fact
+                       "clock_lag_s": sub_rng(seed, "clock").choice((1, 1, base_s, tf_s, 3 * 3600, None))},
             "ops": [{"op": "new", "preload": pre}] + ops, "fired": dict(fired)}
 
 
@@ -98,6 +104,11 @@ def _run_under(run, trace, zone, count_budget):
     try:
         for op in trace["ops"]:
             kind = op["op"]
+            rows_ = (op.get("preload") if kind == "new" else op.get("candles") if kind == "append" else None) or []
+            if rows_ and cfg.get("clock_lag_s") is not None:
+                # LIVE feed: the process handles each arrival `lag` seconds after its newest candle (stamped in
+                # UTC, as exchanges do); the simulated clock is that instant in every zone of the panel
+                simclock.set_now(rows_[-1][0] + cfg["clock_lag_s"])
             try:
                 if kind == "new":
                     rows = op.get("preload") or []
